@@ -47,6 +47,20 @@ MC_LineThorough(i, d, ic, a, c) ==
 
 MC_LineAny(i, d, ic, a, c) == TRUE
 
+(* Solve slices.  The ordinary solve is always taken.  The steady-state option:                  *)
+(*   quick     where the system settles AND the settled values differ from the time-zero values  *)
+(*             (a non-trivial steady state) AND the reduction set a user variable aside          *)
+(*   thorough  every non-trivial steady state; and where the system does not settle (both real   *)
+(*             runs must then raise) the systems of the plain kinds in which the reduction set a *)
+(*             user variable aside                                                               *)
+NonTrivialSteady(st) == LET s == Steady(st.orig) IN s.ok /\ s.s0 # s.plain
+MC_SolveQuick(ss, st)    == ~ss \/ (SeqVars(st.deco) \ {TimeVar} # {} /\ NonTrivialSteady(st))
+MC_SolveThorough(ss, st) ==
+    ~ss \/ LET s == Steady(st.orig)
+           IN IF s.ok THEN s.s0 # s.plain
+              ELSE SeqVars(st.deco) \ {TimeVar} # {} /\ ~HasKind(st, NewKinds)
+MC_SolveAny(ss, st)      == TRUE
+
 OrigDef(x) ==
     IF x \in SeqVars(orig.lagged) THEN D("lag", orig.lagged[LagOf(orig, x)].src, "", 0, << >>)
     ELSE IF x \in SeqVars(orig.exo) THEN D("exo", "", "", 0, orig.exo[ExoOf(orig, x)].p)
@@ -56,9 +70,11 @@ NamesOf(s) == [i \in 1..Len(s) |-> s[i].var]
 
 NOrig == Len(orig.endo) - 1 + Len(orig.lagged) + Len(orig.exo)      \* without the parser's own t
 
-Terminal == phase = "done"
+Terminal == phase = "solved"
 Emit == Terminal =>
     PrintT(<< "BEH", ToJson([
+        ss     |-> (solve = "steady"),
+        T      |-> SteadyT,
         decl   |-> [i \in 1..NOrig |-> [var |-> Vars[i], def |-> OrigDef(Vars[i]), ic |-> orig.ics[Vars[i]]]],
         endo   |-> NamesOf(endo),
         deco   |-> NamesOf(deco),
